@@ -146,9 +146,21 @@ def run_variants(case):
     det, sph, krho, kz, phi = _geometry(case)
     if v == "zero_aberration":
         z = {"scalar": 0.0, "int": 0, "list1": [0.0], "list3": [0.0, 0.0, 0.0], "array": np.zeros(4)}[case["zero_form"]]
-        a = calc_field(det, sph, theory=AberratedMieLens(spherical_aberration=z, lens_angle=beta), **kw).values
-        b = calc_field(det, sph, theory=MieLens(lens_angle=beta), **kw).values
+        # both theories with the same accuracy options: none, or a quadrature order / interpolation choice of
+        # their own (derived from the case so that old cases replay unchanged)
+        acc = {}
+        pick = case["degree"] % 3
+        if pick == 1:
+            acc = {"quad_npts": case["npts"]}
+            # let points fall between the two large-rho cutoffs (3.9 * npts and 3.9 * 100)
+            det, sph, krho, kz, phi = _geometry(case, npts=max(100, case["npts"]))
+        elif pick == 2:
+            acc = {"interpolate_integrals": case["interp"], "quad_npts": case["npts"]}
+            det, sph, krho, kz, phi = _geometry(case, npts=max(100, case["npts"]))
+        a = calc_field(det, sph, theory=AberratedMieLens(spherical_aberration=z, lens_angle=beta, calculator_accuracy_kwargs=dict(acc)), **kw).values
+        b = calc_field(det, sph, theory=MieLens(lens_angle=beta, calculator_accuracy_kwargs=dict(acc)), **kw).values
         labels.append(case["zero_form"])
+        labels.append("accuracy_options" if acc else "default_options")
         if not np.array_equal(a, b):
             return Outcome(failure("zero_aberration", "AberratedMieLens(%r) differs from MieLens by %.3g" % (z, np.abs(a - b).max()),
                                    form=case["zero_form"]), True, labels)
